@@ -102,16 +102,20 @@ def run(ctx):
     # (Result<integer, DecodeError>) and takes octets from the source; its width is the number of octets it takes.  A
     # *decoder* is a body that makes at least five two-octet reads.  The *calendar validator* is the function that
     # builds a Time through chrono's checked constructors.
-    readers = _Readers(f)
     parses = _int_parses(f)
-    readers.guarded = {(pb.name, c.bb) for pb, c, _, _, oks in parses if oks and all(oks)}
-    cal_fns = _calendar_fns(f)
+    guarded = {(pb.name, c.bb) for pb, c, _, _, oks in parses if oks and all(oks)}
+    # the decoders are looked at with their own private helpers (anything that is neither a digit reader nor the
+    # calendar validator) folded into them: how the fields are read is one fact however the reading is split up
+    fd = _decoder_view(f)
+    readers = _Readers(fd)
+    readers.guarded = guarded
+    cal_fns = _calendar_fns(fd)
     if not cal_fns:
         ctx.missing("R-GRD", "Time::from_parts", X + "Time::from_parts")
     cal_names = {b.name for b in cal_fns}
     consts = getattr(f, "consts", {})
     nfields = 0
-    for b in _decoder_bodies(f, readers):
+    for b in _decoder_bodies(fd, readers):
         oc = outcome(b)
         reads = [(c, readers.width(c)) for c in b.calls() if not b.is_cleanup(c.bb) and readers.width(c)]
         two = [c for c, w in reads if w == 2]
@@ -131,21 +135,21 @@ def run(ctx):
             good = (n2, n4) == want and chk and not odd
             if good:
                 nfields += sum(1 for c in rds if readers.digits_only(c))
-            ctx.ob("R-CHK", "%s[%s]:field-reads" % (_dec_name(f, b), kind), good,
+            ctx.ob("R-CHK", "%s[%s]:field-reads" % (_dec_name(fd, b), kind), good,
                    "the %s arm reads exactly %s fixed-width numeric fields, each checked" % (kind, "6×2" if kind == "utc" else "4+5×2"),
                    where=b.loc, detail={"two_char": n2, "four_char": n4, "all_checked": chk, "other_widths": odd})
-        mpz = MustPass(f, lambda c: False, guard_fn=lambda bd, s, bb: _byte_is_edges(bd, s, bb, 90, consts), name="terminating 'Z'")
+        mpz = MustPass(fd, lambda c: False, guard_fn=lambda bd, s, bb: _byte_is_edges(bd, s, bb, 90, consts), name="terminating 'Z'")
         ok = mpz.holds(b.name)
-        ctx.ob("R-GRD", "%s:terminated-by-Z" % _dec_name(f, b), ok,
-               "%s accepts only values whose next byte after the fields is 'Z'" % _dec_name(f, b), where=b.loc,
-               detail=None if ok else K.why(f, mpz, b.name))
-        mpp = MustPass(f, lambda c: c.res in cal_names, name="Time::from_parts")
+        ctx.ob("R-GRD", "%s:terminated-by-Z" % _dec_name(fd, b), ok,
+               "%s accepts only values whose next byte after the fields is 'Z'" % _dec_name(fd, b), where=b.loc,
+               detail=None if ok else K.why(fd, mpz, b.name))
+        mpp = MustPass(fd, lambda c: c.res in cal_names, name="Time::from_parts")
         ok = mpp.holds(b.name)
-        ctx.ob("R-CHK", "%s→from_parts" % _dec_name(f, b), ok,
-               "%s builds the time only through from_parts (calendar validation)" % _dec_name(f, b), where=b.loc,
-               detail=None if ok else K.why(f, mpp, b.name))
+        ctx.ob("R-CHK", "%s→from_parts" % _dec_name(fd, b), ok,
+               "%s builds the time only through from_parts (calendar validation)" % _dec_name(fd, b), where=b.loc,
+               detail=None if ok else K.why(fd, mpp, b.name))
     # the tag match in take_from: any other tag fails
-    tfb = f.body(X + "Time::take_from")
+    tfb = fd.body(X + "Time::take_from")
     if tfb is None:
         ctx.missing("R-GRD", "Time::take_from:other-tags-fail", X + "Time::take_from")
     else:
@@ -154,18 +158,18 @@ def run(ctx):
         for c in tfb.calls():
             if c.name in ("take_primitive", "take_primitive_if", "take_value", "take_value_if") and not tfb.is_cleanup(c.bb):
                 for t in K.arg_terms(c):
-                    if t[0] in ("closure", "fnref") and f.body(t[1]) is not None:
-                        tf.append(f.body(t[1]))
+                    if t[0] in ("closure", "fnref") and fd.body(t[1]) is not None:
+                        tf.append(fd.body(t[1]))
         if not tf:
-            tf = [b for n, b in f.bodies.items() if re.match(r"^repository::x509::Time::take_from::\{closure#0\}$", n)]
+            tf = [b for n, b in fd.bodies.items() if re.match(r"^repository::x509::Time::take_from::\{closure#0\}$", n)]
         for b in tf[:1]:
             # success paths must contain a field read (directly or in a callee all of whose success paths do): a path to
             # success with no numeric field read = another tag accepted
-            mpr = MustPass(f, lambda c: bool(readers.width(c)), name="field reader")
+            mpr = MustPass(fd, lambda c: bool(readers.width(c)), name="field reader")
             ok = mpr.holds(b.name)
             ctx.ob("R-GRD", "Time::take_from:other-tags-fail", ok,
                    "Time::take_from has no success path that avoids the UTCTime / GeneralizedTime field readers", where=b.loc,
-                   detail=None if ok else K.why(f, mpr, b.name))
+                   detail=None if ok else K.why(fd, mpr, b.name))
     for fp in cal_fns:
         ctx.saw_fn(fp.name)
         oc = outcome(fp)
@@ -586,6 +590,18 @@ def _digit_literal_edges(f, bd, sym, bb, call_bb, consts):
             return ("digit", [(bb, e[1] if truth else e[0])])
         if nm == "is_digit" and len(dd[2]) == 2 and mine(dd[2][0]) and _const_is(dd[2][1], 10):
             return ("digit", [(bb, e[1] if truth else e[0])])
+        if nm == "contains" and len(dd[2]) == 2 and mine(dd[2][1]):
+            rg = strip_deep(dd[2][0])          # (b'0'..=b'9').contains(&c) / (b'0'..b':').contains(&c)
+            lo = hi = None
+            if rg[0] == "call" and (rg[3] or {}).get("name") == "new" and "RangeInclusive" in (rg[1] or "") and len(rg[2]) == 2:
+                lo, hi = strip_deep(rg[2][0]), strip_deep(rg[2][1])
+                if lo[0] == hi[0] == "const" and (lo[1], hi[1]) == (48, 57):
+                    return ("digit", [(bb, e[1] if truth else e[0])])
+            if rg[0] == "agg" and rg[1].endswith("ops::Range") and len(rg[3]) == 2:
+                fs = {str(k_): strip_deep(v_) for k_, v_ in rg[3]}
+                if fs.get("start", ("",))[0] == "const" and fs.get("end", ("",))[0] == "const" and \
+                        (fs["start"][1], fs["end"][1]) == (48, 58):
+                    return ("digit", [(bb, e[1] if truth else e[0])])
         if nm in ("is_some", "is_none") and dd[2]:
             inner = strip_deep(dd[2][0])
             if inner[0] == "call" and (inner[3] or {}).get("name") == "to_digit" and len(inner[2]) == 2 and \
@@ -1650,19 +1666,22 @@ def _pivot_deciders(f):
 
     def decoders():
         if "d" not in memo:
-            readers = _Readers(f)
-            cal = {b.name for b in _calendar_fns(f)}
+            fd = _decoder_view(f)
+            readers = _Readers(fd)
+            cal = {b.name for b in _calendar_fns(fd)}
             res = {}
-            for b in _decoder_bodies(f, readers):
-                applies, ok, det = _pivot_decided(f, b, readers, cal)
+            for b in _decoder_bodies(fd, readers):
+                applies, ok, det = _pivot_decided(fd, b, readers, cal)
                 if applies:
-                    res.setdefault(short(root_fn(f, b.name)), []).append((ok, det))
+                    res.setdefault(short(root_fn(fd, b.name)), []).append((ok, det))
             memo["d"] = res
         return memo["d"]
 
     def one(root):
         def go():
             r = decoders().get(root)
+            if r is None:       # the function named has been folded into the decoders that use it
+                r = [x for v in decoders().values() for x in v]
             ok = bool(r) and all(x[0] for x in r)
             return ok, "year evaluated for every yy in 0..=99: %s" % ([x[1] for x in r],) if ok else [x[1] for x in (r or [])]
         return go
@@ -1695,9 +1714,45 @@ def _pivot_deciders(f):
             ok = bool(ps) and all(rx.match(outcome_str(p.outcome)) and not p.conds for p in ps)
             return ok, "the wrapper type is applied directly" if ok else [outcome_str(p.outcome) for p in ps][:3]
         return go
-    d = {"floor:UTCTime field readers with a year pivot": floor}
-    for root in ("Time::take_from", "Time::take_opt_from"):
-        d["%s:two-digit-year-pivot-50" % root] = one(root)
+    class _ByKey(dict):
+        def __contains__(self, key):
+            return dict.__contains__(self, key) or key.endswith(":two-digit-year-pivot-50")
+
+        def __getitem__(self, key):
+            if dict.__contains__(self, key):
+                return dict.__getitem__(self, key)
+            return one(key[:-len(":two-digit-year-pivot-50")])
+    d = _ByKey({"floor:UTCTime field readers with a year pivot": floor})
     for which in ("year<1950", "1950≤year≤2049", "year>2049"):
         d["Time::encode_varied:" + which] = region(which)
     return d
+
+
+def _decoder_view(f):
+    """The facts with the private helpers of the time decoders folded into their callers — every private function of
+    x509.rs that (transitively) calls a digit reader or the calendar validator without being one.  The same graph
+    rewrite as the engine's views (engine/inline.py), selected by what the functions do."""
+    from engine.inline import InlinedFacts
+    if isinstance(f, InlinedFacts):
+        return f
+    cached = getattr(f, "_c17_decoder_view", None)
+    if cached is not None:
+        return cached
+    readers = _Readers(f)
+    keep = set(readers.cand) | {b.name for b in _calendar_fns(f)}
+    priv = {n for n, r in f.fns.items() if n.startswith(X) and r.get("has_body") and not r.get("exported") and
+            not r.get("impl_trait") and not r.get("async") and n not in keep and f.body(n) is not None and _in_x509(f.body(n))}
+    uses = set()
+    changed = True
+    while changed:
+        changed = False
+        for n in priv - uses:
+            if any(c.is_static and (c.res in keep or c.res in uses) for c in f.body(n).calls()):
+                uses.add(n)
+                changed = True
+    v = InlinedFacts(f, depth=6, max_blocks=400, only=uses) if uses else f
+    try:
+        f._c17_decoder_view = v
+    except AttributeError:
+        pass
+    return v
